@@ -212,28 +212,40 @@ func handlePanic(t *T, recovered any) {
 	}
 
 	err, isError := recovered.(error)
-	switch {
 	// compare identity: errors.Is would let any error with a permissive Is method
 	// pass for FailNow and be swallowed without marking the failure
-	case isError && err == errFailNow: //nolint:errorlint // identity is intended
+	if isError && err == errFailNow { //nolint:errorlint // identity is intended
 		return
-	case isError:
-		stack := debug.Stack()
+	}
+
+	// mark the failure before describing the panic value: calling Error() or
+	// formatting an arbitrary value can panic again, which must not escape
+	t.Fail()
+
+	defer func() {
+		if r := recover(); r != nil {
+			t.logger.Error("recovered panic in scenario, the panic value could not be logged",
+				log.IterationAttr(t.Iteration),
+			)
+		}
+	}()
+
+	stack := debug.Stack()
+	if isError {
 		t.logger.Error("recovered panic in scenario",
 			log.StackTraceAttr(stack),
 			log.IterationAttr(t.Iteration),
 			log.ErrorAttr(err),
 		)
-		t.Fail()
-	default:
-		stack := debug.Stack()
-		t.logger.Error("recovered panic in scenario",
-			log.StackTraceAttr(stack),
-			log.IterationAttr(t.Iteration),
-			log.ErrorAnyAttr(recovered),
-		)
-		t.Fail()
+
+		return
 	}
+
+	t.logger.Error("recovered panic in scenario",
+		log.StackTraceAttr(stack),
+		log.IterationAttr(t.Iteration),
+		log.ErrorAnyAttr(recovered),
+	)
 }
 
 func (t *T) teardown() {
